@@ -44,13 +44,14 @@ THEOREMS = [NS + n for n in [
     "tokenizer_reuse_eq_fresh",
     "generator_reset_eq_init_partial",
     "generator_reuse_eq_fresh_partial",
-    "generator_next_name_counterexample",
+    "generator_next_name_restarts",
+    "generator_next_name_snapshot_witness",
 ]]
 
 # fields a call writes but hands back itself (not through reset): justified next to the theorem that uses them
 PARSER_EXEMPT = ["error_level"]          # _try_parse saves / restores it in `finally` (C14.try_parse_restores_level)
 TOKENIZER_EXEMPT: list = []
-GENERATOR_EXEMPT = ["identify", "_quote_json_path_key_using_brackets", "_next_name"]
+GENERATOR_EXEMPT = ["identify", "_quote_json_path_key_using_brackets"]
 
 
 # ------------------------------------------------------------------------------------------ translate
@@ -459,7 +460,7 @@ def reuse_checks(chk, budget_s):
                              {"dialect": d or "", "class": cls})
 
     ALIAS_SQL = ["SELECT * FROM t AS (a, b)", "SELECT * FROM (SELECT 1) AS (a)", "SELECT * FROM UNNEST(x) AS (a)"]
-    # witness templates first (Properties/C15.lean generator_next_name_counterexample)
+    # witness templates first (Properties/C15.lean generator_next_name_snapshot_witness / generator_next_name_restarts)
     for sql in ALIAS_SQL:
         tree = sqlglot.parse_one(sql)
         g0 = Dialect.get_or_raise(None).generator()
